@@ -84,12 +84,48 @@ def family(seed, tier):
     return docs
 
 
+def fault_pass(seed, tier):
+    """The rates of a block are those of the winning records even when a download of one of the block's entries fails once: every 3rd
+    (thorough: every) upstream request of every block of one chain fails once; afterwards pn_rate / pn_grade / pn_winners must equal
+    the fault-free run's (a block graded without an entry it could not fetch records another record's rates for good)."""
+    import json, shutil
+    import c02
+    work = vlib.scratch("c12f-")
+    try:
+        vh = vlib.go_build("vh", "vh")
+        doc = live(seed + 5, 0, tier).doc()
+        doc["name"] = "c12-reqfault"
+        path = c02.crash_run(vh, doc, work, "c12-req", [], 3 if tier == "quick" else 1, seed % 3, span=3, mode="reqfault")
+        evs = [json.loads(l) for l in open(path)]
+        if any(e["ev"] == "Infra" for e in evs):
+            raise vlib.Infra("fault experiment infrastructure failure")
+        exps = [e for e in evs if e["ev"] == "FaultExp"]
+        bad = [e for e in exps if not (e.get("equal") and e.get("contOK", True)) and set(e.get("diffTables") or []) & {"pn_rate", "pn_grade", "pn_winners"}]
+        if bad:
+            keep = os.path.join(vlib.replay_dir(PID), "reqfault-seed%d.ndjson" % seed)
+            shutil.copyfile(path, keep)
+            json.dump(doc, open(keep + ".scenario.json", "w"))
+            sys.stdout.write("  after a failed download (request %s of block %s) the recorded rates / winners differ from the fault-free run: %s\n"
+                             % (bad[0]["k"], bad[0]["h"], bad[0].get("diffTables")))
+            vlib.violation(PID, keep)
+        return len(exps), len(bad)
+    finally:
+        shutil.rmtree(work, ignore_errors=True)
+
+
 def main():
-    return lcheck.run_check(PID, family, {"C12"},
+    n, bad = fault_pass(vlib.seed(), vlib.tier())
+    rc = check(n)
+    return 1 if bad else rc
+
+
+def check(nfault):
+    return lcheck.run_check(PID, family, {"C12"}, extra_cov={"upstream_fault_experiments": nfault},
         rule="every combination of OPR / SPR winners (both, either, none, one record short) with the OPR rate inside, next to the edge of, and outside "
              "the tolerance band of each 2.0 era (1% / 0.1%, 10%, 25% incl. the exact 25% edges), PEG priced zero / by the market-cap equation over the committed "
              "supply / floating in the legacy eras (incl. an equation phase that starts before any PEG exists); TLC compares pn_rate of every height with Combine(winner OPR, winner SPR, era), requires unrated blocks to "
-             "execute no pending conversion, and checks a digest of every earlier height's rates after every block (immutability); non-trivial = every graded block",
+             "execute no pending conversion, and checks a digest of every earlier height's rates after every block (immutability); in addition every 3rd (thorough: every) upstream request of one chain "
+             "fails once and the rate / grade / winner tables must still equal the fault-free run's; non-trivial = every graded block",
         corrupt=lcheck.corrupt_balance)
 
 
